@@ -231,6 +231,18 @@ def explore(chk):
             ops = ops_fixed
         if rich_span:
             ops = list(ops) + [("fresh", None, "dfxp", None, 0), ("fresh", None, "single", None, 0)]
+        if h % 7 == 3:
+            # one SAMI writer object: a set whose language carries a layout with padding, then the same set without any
+            # language layout (same language codes): the second document owes nothing to the first
+            a_ = json.loads(json.dumps(sets[0])); b_ = json.loads(json.dumps(sets[0]))
+            for L_ in a_["langs"]:
+                L_["layout"] = {"padding": ["%d%%" % rich_sub.choice([3, 5]), "6%", "7%", "8%"]}
+            for L_ in b_["langs"]:
+                L_["layout"] = None
+            sets = list(sets) + [a_, b_]
+            shared = list(shared) + [("sami", None)]
+            wi_ = len(shared) - 1
+            ops = list(ops) + [("shared", wi_, "sami", None, len(sets) - 2), ("shared", wi_, "sami", None, len(sets) - 1), ("fresh", None, "sami", None, len(sets) - 1)]
         histories.append((sets, shared, ops))
         for (_, _, kind, opts, si) in ops:
             o = dict(opts or {})
